@@ -10,5 +10,7 @@ CONSTANTS
   WSubs <- X_WSubs
   Cap <- X_Cap
   CheckCap = TRUE
+  LateEm <- X_LateEm
+  DropTrustsCaller = FALSE
 SPECIFICATION Spec
 INVARIANTS NoPanic Order ExactlyOnce OnlyAsked StatefulFirst ClosedDetached LocksSane
